@@ -14,7 +14,8 @@ summ = vlib.regen()
 for tr, s in summ.items():
     if 'error' in s:
         print('translator %s failed:\n%s' % (tr, s['error']))
-targets = sorted('props/' + os.path.basename(p)[:-2] + '.vo' for p in glob.glob(os.path.join(vlib.COQ, 'props', '*.v')))
+targets = sorted(os.path.relpath(p, vlib.COQ)[:-2] + '.vo' for d in ('lib', 'gen', 'proofs', 'props')
+                 for p in glob.glob(os.path.join(vlib.COQ, d, '*.v')))
 ok, log = vlib.make(targets, timeout=3000)
 print(log[-3000:])
 print('setup: built=%s targets=%s' % (ok, ' '.join(targets)))
